@@ -7,3 +7,8 @@ Definition table : list (string * (val -> val)) :=
 Definition table2 : list (string * (val -> val)) :=
   [ ("retype_header", fun v =>   (* [value, cur|N, new|N] -> str | N *)
        vopt VS (retype_header (as_str (arg 0 v)) (as_opt_str (arg 1 v)) (as_opt_str (arg 2 v)))) ]%string.
+Definition table3 : list (string * (val -> val)) :=
+  [ ("find_cst", fun v =>   (* [[[start, end, kind, name|N]...], lineno, kind, name|N] -> idx | N *)
+       vopt (fun k => VZ (Z.of_nat k))
+         (find_cst (map (fun c => {| c_start := as_Z (arg 0 c); c_end := as_Z (arg 1 c); c_kind := as_str (arg 2 c); c_name := as_opt_str (arg 3 c) |}) (as_list (arg 0 v)))
+                   (as_Z (arg 1 v)) (as_str (arg 2 v)) (as_opt_str (arg 3 v)))) ]%string.
